@@ -23,6 +23,8 @@ import (
 //	c1 <hash> <casm> <casmV2>           Sierra class declared with compiled hash <casm>;
 //	                                    <casmV2> = blake2s hash of the definition (what juno precomputes)
 //	m  <hash> <casm>                    compiled-class-hash migration
+//	x  <hash>                           class definition supplied without declaration (the class of
+//	                                    a contract the diff deploys; sync does this)
 //
 // all numbers hex without prefix, every section sorted by key.
 
@@ -64,6 +66,28 @@ func emptyDiff() *core.StateDiff {
 		ReplacedClasses:   map[felt.Felt]*felt.Felt{},
 		MigratedClasses:   map[felt.SierraClassHash]felt.CasmClassHash{},
 	}
+}
+
+// encodeDesc writes diff and extra class definitions in token form.
+func encodeDesc(d *Desc) string {
+	line := encodeDiff(d.Diff)
+	declared := map[felt.Felt]bool{}
+	for _, c := range d.Diff.DeclaredV0Classes {
+		declared[*c] = true
+	}
+	for c := range d.Diff.DeclaredV1Classes {
+		declared[c] = true
+	}
+	var t []string
+	for _, c := range sortedKeys(d.Classes) {
+		if !declared[c] {
+			t = append(t, "x", hx(&c))
+		}
+	}
+	if len(t) == 0 {
+		return line
+	}
+	return strings.TrimSpace(line + " " + strings.Join(t, " "))
 }
 
 // encodeDiff writes the diff in token form.
@@ -125,7 +149,7 @@ func decodeDiff(version, line string) (*Desc, error) {
 	}
 	for i := 0; i < len(t); {
 		var fs []*felt.Felt
-		argc := map[string]int{"sa": 1, "sk": 2, "n": 2, "d": 2, "r": 2, "c0": 1, "c1": 3, "m": 2}[t[i]]
+		argc := map[string]int{"sa": 1, "sk": 2, "n": 2, "d": 2, "r": 2, "c0": 1, "c1": 3, "m": 2, "x": 1}[t[i]]
 		if argc == 0 {
 			return nil, fmt.Errorf("unknown diff token %q", t[i])
 		}
@@ -165,6 +189,12 @@ func decodeDiff(version, line string) (*Desc, error) {
 			classes[*fs[0]] = def
 		case "c1":
 			d.DeclaredV1Classes[*fs[0]] = fs[1]
+			def, ok := classDef(fs[0])
+			if !ok {
+				return nil, fmt.Errorf("no fixture for class %s", fs[0])
+			}
+			classes[*fs[0]] = def
+		case "x":
 			def, ok := classDef(fs[0])
 			if !ok {
 				return nil, fmt.Errorf("no fixture for class %s", fs[0])
